@@ -1,4 +1,4 @@
-Require Import Gengo.Base.Str Gengo.Base.Sexp Gengo.Base.StrOrder Gengo.Base.Closure Gengo.Model.Tags Gengo.Model.ImportBoss.
+Require Import Gengo.Base.Str Gengo.Base.Sexp Gengo.Base.StrOrder Gengo.Base.Closure Gengo.Model.Tags Gengo.Model.ImportBoss Gengo.Proofs.TagsProofs.
 From Coq Require Import Permutation Sorting.Sorted.
 
 (* ---------- dedup ---------- *)
@@ -279,3 +279,109 @@ Proof.
     apply (closed_reach str (children_of u) l) with (a := c); auto.
     intros y Hy. destruct (Hcl y Hy) as [[]|Hok]. exact Hok.
 Qed.
+
+(* ---------- Context.IncomingImports and the caches ---------- *)
+
+Definition vals (q : str) (m : amap (list str)) : list str :=
+  match lookup q m with Some l => l | None => [] end.
+
+Lemma vals_append q k v m :
+  vals q (append_val k v m) = if str_eqb q k then vals q m ++ [v] else vals q m.
+Proof.
+  unfold vals. destruct (str_eqb_spec q k) as [->|Hne].
+  - rewrite lookup_append_same. destruct (lookup k m); reflexivity.
+  - rewrite lookup_append_other by exact Hne. reflexivity.
+Qed.
+
+Definition contrib (q : str) (pi : str * list str) : list str :=
+  map (fun _ => fst pi) (filter (str_eqb q) (snd pi)).
+
+Lemma inner_vals q p imps : forall acc,
+  vals q (fold_left (fun acc imp => append_val imp p acc) imps acc) = vals q acc ++ contrib q (p, imps).
+Proof.
+  unfold contrib. cbn [fst snd].
+  induction imps as [|i imps IH]; intros acc; cbn [fold_left filter map].
+  - rewrite app_nil_r. reflexivity.
+  - rewrite IH, vals_append. destruct (str_eqb q i); cbn [map].
+    + rewrite <- app_assoc. reflexivity.
+    + reflexivity.
+Qed.
+
+Lemma outer_vals q u : forall acc,
+  vals q (fold_left (fun acc pi => fold_left (fun acc imp => append_val imp (fst pi) acc) (snd pi) acc) u acc)
+  = vals q acc ++ flat_map (contrib q) u.
+Proof.
+  induction u as [|[p imps] u IH]; intros acc; cbn [fold_left flat_map fst snd].
+  - rewrite app_nil_r. reflexivity.
+  - rewrite IH, inner_vals, <- app_assoc. reflexivity.
+Qed.
+
+(* Context.IncomingImports, exactly: the importers of q are the packages that list q among their
+   imports, in universe order, once per listing *)
+Theorem incoming_exact u q : vals q (incoming u) = flat_map (contrib q) u.
+Proof. unfold incoming. rewrite outer_vals. reflexivity. Qed.
+
+Theorem incoming_spec u q p :
+  In p (vals q (incoming u)) <-> exists imps, In (p, imps) u /\ In q imps.
+Proof.
+  rewrite incoming_exact, in_flat_map. unfold contrib. split.
+  - intros [[p' imps] [Hin Hc]]. cbn [fst snd] in Hc. apply in_map_iff in Hc.
+    destruct Hc as [i [<- Hf]]. apply filter_In in Hf. destruct Hf as [Hi He].
+    destruct (str_eqb_spec q i) as [->|]; [|discriminate]. exists imps. split; assumption.
+  - intros [imps [Hin Hq]]. exists (p, imps). split; [exact Hin|]. cbn [fst snd].
+    apply in_map_iff. exists q. split; [reflexivity|]. apply filter_In. split; [exact Hq|].
+    destruct (str_eqb_spec q q); congruence.
+Qed.
+
+(* ---------- the caches never outlive a change of the universe ---------- *)
+Definition ctx_inv (c : ctxt) : Prop :=
+  (cinc c = None \/ cinc c = Some (incoming (cu c))) /\
+  (ctr c = None \/ ctr c = Some (tclosure (incoming (cu c)))).
+
+Lemma ctx_new_inv u : ctx_inv (ctx_new u).
+Proof. split; left; reflexivity. Qed.
+
+Lemma ctx_incoming_spec c : ctx_inv c ->
+  snd (ctx_incoming c) = incoming (cu c) /\ cu (fst (ctx_incoming c)) = cu c /\
+  cinc (fst (ctx_incoming c)) = Some (incoming (cu c)) /\ ctr (fst (ctx_incoming c)) = ctr c.
+Proof.
+  intros [Hi _]. unfold ctx_incoming. destruct (cinc c) as [i|] eqn:E; cbn [fst snd cu cinc ctr].
+  - destruct Hi as [Hi|Hi]; [discriminate|]. injection Hi as ->. auto.
+  - auto.
+Qed.
+
+Lemma ctx_step_spec c o : ctx_inv c ->
+  let u' := match o with OSet u => u | _ => cu c end in
+  ctx_inv (fst (ctx_step c o)) /\ cu (fst (ctx_step c o)) = u' /\
+  snd (ctx_step c o) = match o with
+                       | OSet _ => None
+                       | OInc => Some (incoming (cu c))
+                       | OTrans => Some (tclosure (incoming (cu c)))
+                       end.
+Proof.
+  intros Hinv. destruct o as [u| |]; cbn [ctx_step].
+  - cbn [fst snd]. split; [apply ctx_new_inv|]. split; reflexivity.
+  - destruct (ctx_incoming_spec c Hinv) as [Hs [Hu [Hc Ht]]].
+    destruct (ctx_incoming c) as [c' i]. cbn [fst snd] in *. subst i.
+    split; [|split; [exact Hu|reflexivity]].
+    split; [right; rewrite Hu; exact Hc|]. rewrite Ht, Hu. apply Hinv.
+  - destruct (ctr c) as [t|] eqn:Et.
+    + cbn [fst snd]. split; [exact Hinv|]. split; [reflexivity|].
+      destruct Hinv as [_ [Ht|Ht]]; rewrite Et in Ht; [discriminate|exact Ht].
+    + destruct (ctx_incoming_spec c Hinv) as [Hs [Hu [Hc Ht]]].
+      destruct (ctx_incoming c) as [c' i]. cbn [fst snd] in *. subst i.
+      split; [|split; [exact Hu|reflexivity]].
+      split; cbn [cu cinc ctr]; right; rewrite Hu; [exact Hc|reflexivity].
+Qed.
+
+(* every answer of a Context, over any history of questions and universe changes, is the answer
+   computed from the universe as it is at that moment *)
+Theorem ctx_answers_fresh ops : forall c, ctx_inv c -> ctx_run c ops = ctx_spec (cu c) ops.
+Proof.
+  induction ops as [|o ops IH]; intros c Hinv; [reflexivity|].
+  cbn [ctx_run]. destruct (ctx_step_spec c o Hinv) as [Hinv' [Hu Ha]].
+  destruct (ctx_step c o) as [c' a]. cbn [fst snd] in *. subst a.
+  rewrite (IH c' Hinv'), Hu. destruct o; reflexivity.
+Qed.
+Corollary ctx_answers_fresh_new u ops : ctx_run (ctx_new u) ops = ctx_spec u ops.
+Proof. apply (ctx_answers_fresh ops (ctx_new u)), ctx_new_inv. Qed.
